@@ -1,5 +1,5 @@
 """C01 -- the returned upper bound is backed by a complete, checkable dual certificate."""
-from . import pepsolve, wrappers, formula, dictops, mosekprog
+from . import pepsolve, wrappers, formula, dictops, mosekprog, solveprog
 
 LEVEL = "other"
 EXPLANATION = ("Structure of the certificate bookkeeping on every path: every send is paired with the tracking append of the same object and the "
@@ -15,6 +15,7 @@ ASSUMPTIONS = ["non-negativity / positive semidefiniteness of the numbers and 'u
 
 def run(ctx):
     n = pepsolve.r_pair(ctx)
+    solveprog.r_solve_program(ctx, {"track", "duals", "return", "generate"})
     wrappers.r_track(ctx)
     wrappers.r_slots(ctx)
     wrappers.r_sign(ctx)
